@@ -1,33 +1,51 @@
-"""C04 — the WSGI and ASGI stacks are observationally equivalent (C04/Model.v, Resp/Model.v)."""
+"""C04 — the WSGI and ASGI stacks are observationally equivalent (C04/Model.v, C04/Apps.v, Resp/Model.v)."""
 import io
 import json
 import os
 
 from email.utils import formatdate
 
-from . import core, util, resp, c02, c05
+import re
+
+from . import core, util, resp, c02, c05, c08
 
 PID = "C04"
 MANIFEST = dict(
     text="Theorems request_view_equiv (headers mapping, client, body of the WSGI view of the CGI rendering = those of the ASGI view "
-         "of the scope rendering of one abstract request, for distinct header names), response_equiv (every response recipe yields "
-         "the same status, the same header list and the same body bytes on both interfaces; the event-stream response differs only "
-         "by the Connection header) about the Gallina models of both request classes and all response classes. The models are "
-         "compared with both live stacks; compositions that have no separate model here (derived accessors, JSON/forms/uploads, "
-         "router, mounts, hosts, Files/Pages incl. 304, view shortcuts, decorators) are run differentially on both stacks.",
-    note="Modelled, not verified: the gateway's rendering of the abstract request (CGI naming, lower-cased scope names); header names "
-         "are distinct ASCII tokens without '_' (how a gateway joins repeated request headers is not baize's behaviour); the "
-         "differential cases are decided by direct comparison of the two implementations, the theorem for them being the models of "
-         "C07/C08/C09, which cover both interfaces.",
-    technique="Coq proof (equality of two models on the rendered request; per-recipe equality of two renderings) + executable model/implementation correspondence + differential runs",
+         "of the scope rendering of one abstract request, for distinct header names; host_view_equiv: HTTP_HOST of the environ = the "
+         "value the ASGI Hosts' header loop ends with), response_equiv (every response recipe yields the same status, the same "
+         "header list and the same body bytes on both interfaces; the event-stream response differs only by the Connection header) "
+         "and app_equiv (by induction on an application tree of any depth: views that answer with response recipes, Router, Subpaths, "
+         "Hosts over any fullmatch oracle; for every abstract request the run built from the WSGI model functions of C08/C09/C04 and "
+         "the run built from the ASGI ones both answer with a response of the same status, body and header list, modulo the "
+         "event stream's Connection header; the 404 fallbacks included) about the Gallina models of both request classes, all "
+         "response classes and the three dispatchers. The models are compared with both live stacks, trees included; compositions "
+         "that have no model here (derived accessors, JSON/forms/uploads, Files/Pages incl. 304, decorators) are run differentially "
+         "on both stacks.",
+    note="Modelled, not verified: the gateway's rendering of the abstract request (CGI naming, lower-cased scope names, the same text "
+         "for the root path and the path on both interfaces); header names are distinct ASCII tokens without '_' (how a gateway "
+         "joins repeated request headers is not baize's behaviour); app_equiv assumes of every view that it answers with recipes "
+         "response_equiv speaks about (no raising producer, no developer headers on an event stream, file chunk size >= 1); Files "
+         "and Pages are not constructors of the tree: they stay differential cases (decided by direct comparison of the two "
+         "implementations), their theorems being those of C07.",
+    technique="Coq proof (equality of two models on the rendered request; per-recipe equality of two renderings; induction on the "
+              "application tree over the dispatch theorems of C08/C09) + executable model/implementation correspondence + differential runs",
     ref="5/C04")
 RULE = ("cases: abstract requests (methods, 0-4 headers with mixed case incl. content-type/length, cookies, accept, queries, clients, "
         "bodies split into 0-3 chunks incl. empty ones) rendered as environ and as scope+messages; every response recipe of C05's "
-        "generator; differential programs (derived accessors, json/form/multipart incl. malformed, close() after a failed form, "
-        "Router/Subpaths/Hosts tables, Files/Pages on a directory tree incl. conditional and range requests, request_response and "
-        "decorator shortcuts); non-trivial = every case (each compares two implementations)")
-TRUSTED = ["the harness's rendering of an abstract request into an environ (CGI naming) and into a scope + messages"]
-ASSUMPTIONS = ["request header names are distinct ASCII tokens without underscore", "the peer address, when present, has a non-empty host"]
+        "generator; application trees against the model on both interfaces (the router / mount / host tables of the differential "
+        "programs with views that write method, root path, path, typed path parameters and header mapping into the body; a 4-level "
+        "nesting of Hosts, Subpaths and Router in both orders x 12 paths x 2 root paths x 3 hosts; every recipe below Hosts > "
+        "Subpaths > Router; random trees of depth 1-3 and width 1-3 over pools of route texts, prefixes and host patterns with paths "
+        "and Host values aimed down the tree and perturbed); differential programs (derived accessors, json/form/multipart incl. "
+        "malformed, close() after a failed form, Router/Subpaths/Hosts tables, Files/Pages on a directory tree incl. conditional "
+        "and range requests, request_response and decorator shortcuts); non-trivial = every case (each compares two implementations)")
+TRUSTED = ["the harness's rendering of an abstract request into an environ (CGI naming) and into a scope + messages",
+           "Python's re.fullmatch as the oracle the Hosts model is parameterised by (answers computed by the harness)",
+           "the Unicode classes of non-ASCII characters in route texts, as the interpreter reports them (C08)"]
+ASSUMPTIONS = ["request header names are distinct ASCII tokens without underscore", "the peer address, when present, has a non-empty host",
+               "application trees: every Route / Subpaths / Hosts of the tree can be constructed; root path and path are ASCII (a view "
+               "writes them into a body), the same text on both interfaces"]
 EXHAUSTIVE = {"quick": False, "thorough": False}
 
 HEADER_POOL = [["Host", "example.org"], ["content-type", "application/json; charset=utf-8"], ["Content-Length", "12"],
@@ -271,17 +289,193 @@ def program_cases(tier, rng):
         yield "resp-" + r[0], ["resp", r]
 
 
+# ---------------------------------------------------------------- application trees (model: C04/Apps.v)
+# ["app", tree, method, root, path, headers]
+#   tree := ["leaf", ["echo", name, status]] | ["leaf", ["fixed", recipe]]
+#         | ["route", [[route text, tree], ...]] | ["mount", [[prefix, tree], ...]] | ["hosts", [[pattern, tree], ...]]
+
+ROUTE_POOL = [("/", ["/"]), ("/u/{id:int}", ["/u/12", "/u/007"]), ("/u/{name}", ["/u/bob", "/u/12x"]), ("/f/{p:any}", ["/f/a/b", "/f/"]),
+              ("/d/{d:date}/{x:decimal}", ["/d/2021-03-07/1.50", "/d/2024-02-29/10", "/d/2021-02-30/1"]),
+              ("/k/{u:uuid}", ["/k/90478484-0988-45fc-91fe-757d90136892"]), ("{rest:any}", ["", "/zz", "/api/u/5"]),
+              ("/api/{rest:any}", ["/api/", "/api/u/3", "/api/x/y"]), ("/api{rest:any}", ["/api", "/apix", "/api/u/12"]),
+              ("/x/{a}/{b:int}", ["/x/q/1"]), ("/n/{v:decimal}", ["/n/0.50", "/n/3.000", "/n/12"])]
+PREFIX_POOL = ["", "/api", "/apix", "/api/api", "/a", "/a/b", "/u", "/f", "/x"]
+HOST_POOL = [(r"example\.com", ["example.com"]), (r".*\.example\.com(:\d+)?", ["api.example.com", "x.example.com:80"]), (r"(?i)x", ["X", "x"]),
+             (r"", [""]), (r".*", ["anything", ""]), (r"a|ab", ["a", "ab"]), (r"example.com", ["exampleXcom"])]
+HOST_VALUES = [None, "", "example.com", "api.example.com", "x.example.com:80", "EXAMPLE.com", "evil.com", "X", "ab", "example.com.evil.org"]
+APP_HEADER_POOL = [["content-type", "application/json; charset=utf-8"], ["Content-Length", "12"], ["X-Custom-Header", "v1"],
+                   ["accept", "text/html, */*;q=0.1"], ["Cookie", "a=1; b=2"], ["Referer", "http://example.com/x?y=1"], ["X-Empty", ""],
+                   ["X-Host", "not.the.host"], ["Hosts", "nor-this"]]
+PATH_TAILS = ["", "/", "x", "/x", "/u/12", "/api", "/api/u/7", "//"]
+
+
+def echo(name, status=200):
+    return ["leaf", ["echo", name, status]]
+
+
+def leaves_of(tree):
+    if tree[0] == "leaf":
+        yield tree[1]
+    else:
+        for _, sub in tree[1]:
+            yield from leaves_of(sub)
+
+
+def app_case(tree, path, root="", host=None, headers=(), method="GET"):
+    hs = [list(h) for h in headers]
+    if host is not None:
+        hs.append(["Host", host])
+    for leaf in leaves_of(tree):
+        if leaf[0] == "fixed" and leaf[1][0] == "file":      # a FileResponse reads the method and the range headers
+            method = resp.method_of(leaf[1])
+            hs += [[k, v] for k, v in resp.req_headers(leaf[1])]
+            break
+    return ["app", tree, method, root, path, hs]
+
+
+def random_leaf(rng, names, recipes_pool, allow_file):
+    k = rng.random()
+    if k < 0.7:
+        return echo("L%d" % next(names), rng.choice([200, 200, 201, 404]))
+    r = rng.choice(recipes_pool)
+    if r[0] == "file" and not allow_file[0]:
+        return echo("L%d" % next(names))
+    if r[0] == "file":
+        allow_file[0] = False
+    return ["leaf", ["fixed", r]]
+
+
+def random_tree(rng, depth, names, recipes_pool, allow_file):
+    if depth == 0 or rng.random() < 0.2:
+        return random_leaf(rng, names, recipes_pool, allow_file)
+    kind = rng.choice(["route", "mount", "mount", "hosts"])
+    n = rng.randrange(1, 4)
+    if kind == "route":
+        keys = [t for t, _ in rng.sample(ROUTE_POOL, n)]
+    elif kind == "mount":
+        keys = rng.sample(PREFIX_POOL, n)
+    else:
+        keys = [t for t, _ in rng.sample(HOST_POOL, n)]
+    return [kind, [[k, random_tree(rng, depth - 1, names, recipes_pool, allow_file)] for k in keys]]
+
+
+def random_target(rng, tree):
+    """a path and a Host value chosen to travel down the tree"""
+    path, host = "", None
+    while tree[0] != "leaf":
+        if not tree[1]:
+            break
+        key, sub = rng.choice(tree[1])
+        if tree[0] == "mount":
+            path += key
+        elif tree[0] == "route":
+            samples = dict(ROUTE_POOL).get(key, [""])
+            return path + rng.choice(samples), host       # a Router leaves the path as it is
+        else:
+            host = rng.choice(dict(HOST_POOL).get(key, [""]))
+        tree = sub
+    return path, host
+
+
+def app_cases(tier, rng):
+    import itertools
+    # the tables of the differential programs, now against the model
+    routes = [["/", echo("home")], ["/u/{id:int}", echo("user")], ["/u/{name}", echo("uname")], ["/f/{p:any}", echo("any")],
+              ["/d/{d:date}/{x:decimal}", echo("dd")], ["/k/{u:uuid}", echo("uuid")]]
+    for path in ("/", "/u/12", "/u/bob", "/u/", "/f/a/b", "/d/2021-03-07/1.50", "/d/2021-3-7/1", "/k/90478484-0988-45fc-91fe-757d90136892",
+                 "/nope", "", "/u/12/", "/d/2021-02-30/1.0", "/u/00012", "/d/2020-02-29/007.2500"):
+        yield "app-router", app_case(["route", routes], path)
+    tables = [[["/api", "A"], ["/apix", "B"], ["", "D"]], [["", "D"], ["/api", "A"]], [["/a/b", "AB"], ["/a", "A"]], [["/api", "A"]]]
+    for t in tables:
+        tree = ["mount", [[p, echo(n)] for p, n in t]]
+        for path in ("/api", "/api/", "/api/x", "/apix", "/apixy", "/a/b/c", "/a/bc", "/", "", "/other", "api"):
+            for rootp in ("", "/root"):
+                yield "app-subpaths", app_case(tree, path, rootp)
+    htree = ["hosts", [["example\\.com", echo("root")], [".*\\.example\\.com(:\\d+)?", echo("sub")]]]
+    for host in HOST_VALUES:
+        yield "app-hosts", app_case(htree, "/", host=host)
+        for name in ("host", "HOST", "hOsT"):
+            if host is not None:
+                yield "app-hosts", ["app", htree, "GET", "", "/p", [["X-Host", "example.com"], [name, host], ["Hosts", "example.com"]]]
+    # nesting: mounts below mounts, a router below a mount, a mount below a router and below a host switch
+    inner = ["route", [["/u/{id:int}", echo("user")], ["/", echo("home")], ["{rest:any}", ["mount", [["/api", echo("deep")]]]]]]
+    nested = ["hosts", [["example\\.com", ["mount", [["/api", ["mount", [["/api", echo("aa")], ["", inner]]]], ["", echo("dflt", 201)]]]],
+                        [".*", ["route", [["/api/{rest:any}", ["mount", [["/api", inner], ["/a", echo("never")]]]], ["/", echo("other")]]]]]]
+    for host in (None, "example.com", "zz"):
+        for path in ("/api/api", "/api/api/x", "/api/u/12", "/api/", "/api", "/api/zzz", "/api/api/u/3", "/", "", "/q", "/api/apix", "/apix"):
+            for rootp in ("", "/root"):
+                yield "app-nested", app_case(nested, path, rootp, host, method=rng.choice(["GET", "POST"]))
+    # every response recipe below a mount below a host switch (the event stream's Connection header included)
+    for r in c05.recipes(tier, rng):
+        if r[0] in ("stream", "sse") and any(isinstance(i, str) and i == "RAISE" for i in r[1]):
+            continue
+        tree = ["hosts", [[".*", ["mount", [["/m", ["route", [["/r", ["leaf", ["fixed", r]]]]]]]]]]]
+        yield "app-leaf-" + r[0], app_case(tree, "/m/r", "/root")
+    # random trees
+    pool = [r for r in c05.recipes(tier, rng)
+            if not (r[0] in ("stream", "sse") and any(isinstance(i, str) and i == "RAISE" for i in r[1]))]
+    n = 500 if tier == "quick" else 6000
+    for _ in range(n):
+        names = itertools.count()
+        tree = random_tree(rng, rng.randrange(1, 4), names, pool, [True])
+        for _ in range(3):
+            path, host = random_target(rng, tree)
+            if rng.random() < 0.4:
+                path += rng.choice(PATH_TAILS)
+            if rng.random() < 0.15 and path:
+                path = path[:-1]
+            if rng.random() < 0.3:
+                host = rng.choice(HOST_VALUES)
+            hs = [[rng.choice([k, k.lower(), k.upper()]), v] for k, v in rng.sample(APP_HEADER_POOL, rng.randrange(0, 4))]
+            yield "app-random", app_case(tree, path, rng.choice(["", "", "/root", "/r/s"]), host, hs, rng.choice(["GET", "POST", "DELETE"]))
+
+
 def cases(tier, rng):
     yield from req_cases(tier, rng)
     yield from derived_cases(tier, rng)
     yield from program_cases(tier, rng)
+    yield from app_cases(tier, rng)
 
 
 def search_cases(tier, rng, mism):
     yield from cases("thorough", rng)
 
 
+def enc_tree(tree, patterns):
+    kind, arg = tree
+    if kind == "leaf":
+        return ["leaf", ["fixed", resp.encode(arg[1])] if arg[0] == "fixed" else list(arg)]
+    if kind == "hosts":
+        out = []
+        for pat, sub in arg:
+            patterns.append(pat)
+            out.append([len(patterns) - 1, enc_tree(sub, patterns)])
+        return ["hosts", out]
+    return [kind, [[k, enc_tree(sub, patterns)] for k, sub in arg]]
+
+
+def route_texts(tree):
+    if tree[0] == "leaf":
+        return
+    for k, sub in tree[1]:
+        if tree[0] == "route":
+            yield k
+        yield from route_texts(sub)
+
+
+def enc_app(case):
+    _, tree, method, root, path, headers = case
+    patterns = []
+    t = enc_tree(tree, patterns)
+    texts = [""] + [v for k, v in headers if k.lower() == "host" and v != ""]
+    rows = [[x, [1 if re.fullmatch(p, x) is not None else 0 for p in patterns]] for x in dict.fromkeys(texts)]
+    chars = sorted({ch for r in route_texts(tree) for ch in r if ord(ch) >= 128})
+    return ["app", c08.int_limit(), [[ord(ch), c08.char_class(ch)] for ch in chars], t, method, root, path, [list(h) for h in headers], rows]
+
+
 def enc_case(case):
+    if case[0] == "app":
+        return enc_app(case)
     if case[0] == "resp":
         return ["resp", resp.encode(case[1])]
     if case[0] == "diff":
@@ -368,6 +562,79 @@ def build_program(case, iface):
     raise ValueError(kind)
 
 
+def value_text(v):
+    import datetime
+    import decimal
+    import uuid
+    if type(v) is str:
+        return "s:" + v
+    if type(v) is int:
+        return "i:" + str(v)
+    if type(v) is decimal.Decimal:
+        t = format(v, "f")
+        if "." in t:
+            t = t.rstrip("0").rstrip(".")
+        return "d:" + t
+    if type(v) is uuid.UUID:
+        return "u:" + str(v)
+    if type(v) is datetime.date:
+        return "t:" + v.isoformat()
+    return "?:" + type(v).__name__
+
+
+def echo_text(name, request, kroot, kpath, kparams):
+    ps = request.get(kparams)
+    params = "-" if ps is None else "".join("%s=%s;" % (k, value_text(ps[k])) for k in sorted(ps))
+    headers = "".join("%s: %s\n" % (k, v) for k, v in sorted(request.headers.items()))
+    return "|".join([name, request.method, request.get(kroot, ""), request.get(kpath, ""), params, headers])
+
+
+def build_tree(tree, iface):
+    """the live application of a tree, on one interface"""
+    if iface == "wsgi":
+        import baize.wsgi as B
+    else:
+        import baize.asgi as B
+    kind, arg = tree
+    if kind == "leaf":
+        if arg[0] == "echo":
+            _, name, status = arg
+            if iface == "wsgi":
+                def view(request):
+                    return B.PlainTextResponse(echo_text(name, request, "SCRIPT_NAME", "PATH_INFO", "PATH_PARAMS"), status)
+            else:
+                async def view(request):
+                    return B.PlainTextResponse(echo_text(name, request, "root_path", "path", "path_params"), status)
+            return B.request_response(view)
+        recipe = arg[1]
+        if iface == "wsgi":
+            def view(request):
+                return resp.build(recipe, "wsgi")
+        else:
+            async def view(request):
+                return resp.build(recipe, "asgi")
+        return B.request_response(view)
+    cls = {"route": B.Router, "mount": B.Subpaths, "hosts": B.Hosts}[kind]
+    return cls(*[(k, build_tree(sub, iface)) for k, sub in arg])
+
+
+def canon_answer(x):
+    return ["exc", x[1]] if x and x[0] == "exc" else x
+
+
+def impl_app(case):
+    _, tree, method, root, path, headers = case
+    import baize.wsgi.responses as W
+    import baize.asgi.responses as A
+    W.random_choices = A.random_choices = lambda pop, k: list(c02.BOUNDARY[:k])
+    try:
+        app_w, app_a = build_tree(tree, "wsgi"), build_tree(tree, "asgi")
+    except Exception as e:  # noqa  (a Route / Subpaths that cannot be constructed)
+        return [["cfg"]]
+    env, scope, msgs = render(method, b"", headers, ["127.0.0.1", 9], [], path=path, root=root)
+    return [canon_answer(response_of_wsgi(app_w, env)), canon_answer(response_of_asgi(app_a, scope, msgs))]
+
+
 def request_of(case):
     """(method, path, root, headers) for a differential program"""
     kind = case[1]
@@ -393,6 +660,8 @@ def strip_sanctioned(case, a):
 
 
 def impl(case):
+    if case[0] == "app":
+        return impl_app(case)
     if case[0] == "req":
         _, method, query, headers, client, chunks = case
         env, scope, msgs = render(method, query, headers, client, chunks)
@@ -437,6 +706,21 @@ def oracle(case, obs):
         if obs[0] != obs[1]:
             i = [x != y for x, y in zip(obs[0], obs[1])].index(True)
             return ("request-view-differs-" + ("method", "headers", "client", "body")[i], "wsgi %r / asgi %r" % (obs[0][i], obs[1][i]))
+        return None
+    if case[0] == "app":
+        if len(obs) != 2:
+            return None                  # the tree cannot be constructed on either interface: nothing to compare
+        w, a = obs
+        if not (isinstance(w[0], int) and isinstance(a[0], int)):
+            if w == a:
+                return ("app-no-response", "both interfaces fail alike: %r (case %r)" % (w, case[1:]))
+            return ("app-differs-outcome", "wsgi %r / asgi %r" % (w, a))
+        if w != a:
+            a2 = [a[0], [h for h in a[1] if h != ["connection", "keep-alive"]], a[2]]
+            sse = any(l[0] == "fixed" and l[1][0] == "sse" for l in leaves_of(case[1]))
+            if not (sse and w == a2):
+                what = "status" if w[0] != a[0] else ("headers" if w[1] != a[1] else "body")
+                return ("app-differs-" + what, "wsgi %r / asgi %r" % (w, a))
         return None
     if case[0] == "resp":
         w, a = obs
